@@ -1,4 +1,18 @@
-/- dsmodel_tdigest: model driver stub (filled in when the family is built). -/
-def main (_args : List String) : IO UInt32 := do
-  IO.eprintln "dsmodel_tdigest: not built yet"
-  return 2
+/- dsmodel_tdigest: `tdigest` = update/merge/compress/query histories over double and float digests (C17). -/
+import DSModel.TDigest.Driver
+import DSModel.DriverLoop
+import DSGen.TDigest
+open DS
+
+def tdCfg : TDigest.Cfg :=
+  { tun := { bufMul := DSGen.tdigest_BUFFER_MULTIPLIER, fudgeThr := DSGen.tdigest_FUDGE_THRESHOLD,
+             fudgeSmall := DSGen.tdigest_FUDGE_SMALL_K, fudgeLarge := DSGen.tdigest_FUDGE_LARGE_K,
+             capMul := DSGen.tdigest_CAPACITY_K_MULT, comprMul := DSGen.tdigest_COMPRESSION_K_MULT,
+             minK := DSGen.tdigest_MIN_K, quantW1W2 := DSGen.tdigest_QUANTILE_WEIGHTS_AS_W1_W2 },
+    zMul := DSGen.tdigest_SCALE_Z_MULT, zAdd := DSGen.tdigest_SCALE_Z_ADD,
+    defaultK := DSGen.tdigest_DEFAULT_K }
+
+def main (args : List String) : IO UInt32 := do
+  match args with
+  | ["tdigest"] => runDriver ([] : TDigest.Objs) (TDigest.stepLine tdCfg)
+  | _ => IO.eprintln "usage: dsmodel_tdigest tdigest"; return 2
